@@ -493,6 +493,13 @@ class StreamableHTTPTransport(Transport):
                     except json.JSONDecodeError as e:
                         self._unroutable_parts += 1
                         logger.error(f"Failed to parse SSE message JSON: {e}")
+                elif full_data.strip():
+                    # A message event whose data is no JSON object or array at all
+                    # (plain text, a scalar) is a broken part of the answer as well
+                    self._unroutable_parts += 1
+                    logger.error(
+                        f"SSE message event without a JSON-RPC message: {full_data[:100]!r}"
+                    )
 
         except Exception as e:
             logger.error(f"Error processing SSE event: {e}")
